@@ -6,6 +6,7 @@ containing the spot; judge: positioned dump == ast.parse(new source)."""
 from __future__ import annotations
 
 import ast
+import re
 import tokenize
 
 from .. import oracle as O
@@ -24,7 +25,7 @@ LEVEL_NOTE = ('trusted: CPython tokenize/ast; the target node is addressed by de
 RULE = ('enum: case = (program, gap, replacement); kept iff ast.parse(new) has the same structure; non-trivial = distinct '
         'cases whose source changed; states = distinct sources before/after; traces = executions compared with ast.parse')
 ASSUMPTIONS = ['Module-rooted trees']
-BOUNDS = {'quick': '52 programs, all gaps, 16 replacements, depth 1; depth 2 on 12 programs with 5 replacements',
+BOUNDS = {'quick': '56 programs, all gaps, 16 replacements, depth 1; depth 2 on 12 programs with 5 replacements',
           'thorough': '52 programs, all gaps and all interior positions of multi-char gaps, depth 2 on all programs'}
 
 EXTRA = [
@@ -41,7 +42,12 @@ EXTRA = [
     "x = f'{ a !r:>{ w }}' 'é' \"s\"",
     "async def f ( ) :\n    return [ x async for x in y if z ]",
 ]
-PROGS = BASE + EXTRA
+FSTR = [  # self-documenting f-string expressions ('{x = }' keeps its source text in a hidden Constant), multi-byte text before them
+    "print(f'Größe: {w * h = }')\nt = f'{café = }'",
+    "s = 'naïve'; t = f'{(a , b) = }' f'{ x = !r:>{ w }}'",
+    "u = f'''é {\n a = } ü { b  =  }''' 'ö'",
+]
+PROGS = BASE[:46] + EXTRA + BASE[46:] + FSTR  # positional case ids: later additions go to the end
 for _p in PROGS:
     ast.parse(_p)
 
@@ -102,6 +108,8 @@ def innermost(root, ln, col, eln, ecol):
             f = getattr(ch, 'f', None)
             if f is None:
                 continue
+            if isinstance(ch, ast.Constant) and isinstance(node.a, (ast.JoinedStr, getattr(ast, 'TemplateStr', ast.JoinedStr))):
+                continue  # literal parts of an f-string (incl. the hidden '{x = }' text): the spot is their content, not trivia
             loc = f.loc
             if loc is None:
                 continue
@@ -158,16 +166,58 @@ def run_case(fst, pi, hist, res):
     res.sample({'program': src0, 'edits': [list(h) for h in hist], 'result': cur})
 
 
+_DEBUG_FIELD = re.compile(r'=\s*(![rsa]\s*)?(:[^{}]*(\{[^{}]*\}[^{}]*)*)?\}')
+
+
+def debug_fstring_spans(src):
+    """Character spans of f-strings that have a self-documenting '{expr = }' field."""
+    lines = src.split('\n')
+    out = []
+    for n in ast.walk(ast.parse(src)):
+        if isinstance(n, ast.JoinedStr):
+            a = O.offset_of(lines, n.lineno - 1, O.byte2char(lines[n.lineno - 1], n.col_offset))
+            b = O.offset_of(lines, n.end_lineno - 1, O.byte2char(lines[n.end_lineno - 1], n.end_col_offset))
+            if _DEBUG_FIELD.search(src[a:b]):
+                out.append((a, b))
+    return out
+
+
+def _tokseq(src):
+    ts = O.tokens(src)
+    return None if ts is None else [(t.type, t.string) for t in ts if t.type not in (tokenize.NL, tokenize.COMMENT)]
+
+
+def _dump_no_fstr_text(tree):
+    import copy
+    tree = copy.deepcopy(tree)
+    for n in ast.walk(tree):
+        if isinstance(n, ast.JoinedStr):
+            for v in n.values:
+                if isinstance(v, ast.Constant):
+                    v.value = ''
+    return O.dump(tree)
+
+
 def valid_edits(src, tier, few=False):
     base = O.dump(ast.parse(src))
+    dbg = debug_fstring_spans(src)
     for g1, g2 in gaps(src):
         for o1, o2, t in replacements(src, g1, g2, tier):
             if few and t not in (' ', '', '\n', ' # c\n'):
                 continue
+            if '\\' in t and any(a <= o1 and o2 <= b for a, b in dbg):
+                continue  # CPython 3.12 drops a backslash-newline from the recorded '{expr = }' text while it keeps every other
+                #           character: what the hidden constant should hold is interpreter-defined, so this is not judged
             new = src[:o1] + t + src[o2:]
             tr = O.try_parse(new)
-            if tr is None or O.dump(tr) != base:
+            if tr is None:
                 continue
+            if O.dump(tr) != base:
+                # inside '{expr = }' whitespace is trivia for the expression although it is recorded in the hidden text constant
+                # (every token, incl. the literal parts of the string, must be unchanged)
+                if not any(a <= o1 and o2 <= b for a, b in dbg) or _tokseq(new) != _tokseq(src) or \
+                        _dump_no_fstr_text(tr) != _dump_no_fstr_text(ast.parse(src)):
+                    continue
             yield o1, o2, t
 
 
